@@ -97,6 +97,8 @@ def feed_machine(steps, upto=None):
 def shrink(pid, dp, cmds, fails, max_rounds=3):
     """greedy one-at-a-time removal keeping [fails(cmds)] true (fails runs the implementation only)"""
     cur = list(cmds)
+    if os.environ.get("VERIF_NOSHRINK") == "1":      # sweeps over seeded changes only need the verdict
+        return cur
     for _ in range(max_rounds):
         changed = False
         i = 0
